@@ -42,7 +42,7 @@ def collect(seed):
     meta = {
         'id': sid,
         'breaks_property': pid,
-        'round': ({'A': 1, 'B': 1, 'C': 2, 'E': 5}.get(letter) or (4 if pid in ('C09', 'C10', 'C16', 'C17', 'C18', 'C20') else 3)),
+        'round': int(os.environ.get('SEED_ROUND', 0)) or ({'A': 1, 'B': 1, 'C': 2, 'E': 5}.get(letter) or (4 if pid in ('C09', 'C10', 'C16', 'C17', 'C18', 'C20') else 3)),
         'title': title,
         'author': 'independent sub-agent given only the property text and its own scratch worktree',
         'which_part_breaks': section(notes, r'Which part')[:2500],
